@@ -144,6 +144,32 @@ theorem c01_counterexample_torn_meta :
     | exact trivial
     | exact ⟨⟨by decide, by decide, by decide⟩, ⟨by decide, by decide, by decide⟩⟩
 
+/-- **why bulks must be written one at a time.**  If the writes of two bulks interleave as
+docs(a) docs(b) meta(b) meta(a) (possible as soon as `ActiveWriter.Write` is not serialised: `c01_x_write_order` pins
+the `a.mu.Lock` at its start), both bulks are served until the next restart - and after it neither is: the replay
+assigns docs offsets cumulatively in meta order, so each meta block points at the other bulk's docs block. -/
+theorem c01_counterexample_interleaved_writes :
+    let st := appendInterleaved init (enc wd1) (enc wm1) (enc wd2) (enc wm2)
+    present st wd1 wm1 = true ∧ present st wd2 wm2 = true ∧
+    (restart true st.docs st.mfile).panicked = false ∧
+    present (restart true st.docs st.mfile) wd1 wm1 = false ∧ present (restart true st.docs st.mfile) wd2 wm2 = false ∧
+    (restart true st.docs st.mfile).idx.map (·.pos) = [0, 35] := by
+  decide
+
+/-- the serialised order of the same two bulks is an instance of `c01_acked_survive`: whole bulk after whole bulk,
+the cumulative offsets of the replay are the offsets the writer used -/
+theorem c01_serialised_pair (a b : Blk × Blk) (ha : a.1.WF ∧ a.2.WF) (hb : b.1.WF ∧ b.2.WF) :
+    present (run true init [.bulk a.1 a.2, .bulk b.1 b.2, .restart]) a.1 a.2 = true ∧
+    present (run true init [.bulk a.1 a.2, .bulk b.1 b.2, .restart]) b.1 b.2 = true := by
+  have h := c01_acked_survive [.bulk a.1 a.2, .bulk b.1 b.2, .restart] (by
+    intro e he
+    simp only [List.mem_cons, List.not_mem_nil, or_false] at he
+    rcases he with rfl | rfl | rfl
+    · exact ha
+    · exact hb
+    · exact trivial)
+  exact ⟨h a (by simp [ackedOf]), h b (by simp [ackedOf])⟩
+
 /-- both histories are harmless for the repaired start-up (instances of `c01_acked_survive`, re-checked by evaluation) -/
 theorem c01_witnesses_repaired :
     present (run true init orphanHistory) wd2 wm2 = true ∧ present (run true init tornMetaHistory) wd2 wm2 = true := by
